@@ -136,7 +136,7 @@ func c10Build(in c10Input) ([]mockq.Rec, refmodel.Expr) {
 	}
 	for i, set := range sets {
 		labels := append([]mockq.KV(nil), set...)
-		if in.Shape == "avg-unwrap" || in.Shape == "nested" {
+		if in.Shape == "avg-unwrap" || in.Shape == "nested" || in.Shape == "nested-same-list" {
 			labels = append(labels, mockq.KV{K: "v", V: "2"})
 		}
 		ts := (c09Base + int64(i)) * sec
@@ -181,6 +181,14 @@ func c10Build(in c10Input) ([]mockq.Rec, refmodel.Expr) {
 		e = &refmodel.Bin{Op: "or", L: &refmodel.VecAgg{Op: "sum", X: &refmodel.RangeAgg{Op: "count_over_time", RangeNS: 10 * sec}}, R: &refmodel.Vec{V: 0}}
 	case "vector-unless-total":
 		e = &refmodel.Bin{Op: "unless", L: &refmodel.Vec{V: 1}, R: &refmodel.VecAgg{Op: "count", Grouping: &refmodel.Grouping{Labels: []string{}}, X: &refmodel.RangeAgg{Op: "count_over_time", RangeNS: 10 * sec}}}
+	case "nested-same-list": // the same label list inside and outside, once kept and once removed
+		inner, outer := &refmodel.Grouping{Labels: []string{"a"}}, &refmodel.Grouping{Without: true, Labels: []string{"a"}}
+		if g != nil && !g.Without {
+			inner, outer = &refmodel.Grouping{Without: true, Labels: []string{"a", "v"}}, &refmodel.Grouping{Labels: []string{"a", "v"}}
+		}
+		e = &refmodel.VecAgg{Op: "sum", Grouping: outer, X: &refmodel.RangeAgg{Op: "max_over_time", Unwrap: "v", RangeNS: 10 * sec, Grouping: inner}}
+	case "vec-left": // vector(2) against labelled series: joined by label set like any two vectors
+		e = &refmodel.Bin{Op: "*", L: &refmodel.Vec{V: 2}, R: &refmodel.RangeAgg{Op: "count_over_time", RangeNS: 10 * sec}}
 	case "sort-count", "topk-count":
 		// aggregations that pass series through unchanged: a label set still occurs once per step, at every step
 		op, k := "sort", (*int)(nil)
@@ -413,9 +421,12 @@ func c10Run(r *vkit.Run) {
 		if r.Stop() {
 			break
 		}
-		for _, shape := range []string{"count", "sum-count", "avg-unwrap", "nested", "total-or-vector", "vector-unless-total", "lit-left", "lit-right", "without-all-or-vector", "sort-count", "topk-count", "by-after-without"} {
+		for _, shape := range []string{"count", "sum-count", "avg-unwrap", "nested", "total-or-vector", "vector-unless-total", "lit-left", "lit-right", "without-all-or-vector", "sort-count", "topk-count", "by-after-without", "nested-same-list", "vec-left"} {
 			for _, g := range c10GroupingNames {
-				if (shape == "count" || shape == "sort-count" || shape == "topk-count" || shape == "total-or-vector" || shape == "vector-unless-total" || shape == "without-all-or-vector") && g != "" {
+				if shape == "nested-same-list" && g != "" && g != "by(a)" {
+					continue // (two variants: the grouping only says which of the two carries `by`)
+				}
+				if (shape == "count" || shape == "sort-count" || shape == "topk-count" || shape == "vec-left" || shape == "total-or-vector" || shape == "vector-unless-total" || shape == "without-all-or-vector") && g != "" {
 					continue // the grammar forbids grouping on count_over_time
 				}
 				for _, rg := range []bool{false, true} {
